@@ -96,6 +96,7 @@ C16Clauses(sol, ex) ==
     <<"R16_json_horizon", ex.json.horizon = sol.horizon>>,
     <<"R16_json_compact_is_the_same_document", Len(ex.json_compact_diff) = 0>>,
     <<"R16_xlsx_with_colours_holds_the_same_items", Len(ex.xlsx_colors_diff) = 0>>,
+    <<"R16_exporting_again_gives_the_same_table", Len(ex.export_again_diff) = 0>>,
     <<"R16_csv_rows", ex.csv = TaskRows(sol)>>,
     <<"R16_dataframe_rows", ex.df = TaskRows(sol)>>,
     <<"R16_xlsx_resource_names", ex.xlsx.resource_names = [i \in 1..Len(sol.resources) |-> sol.resources[i].name]>>,
